@@ -4,7 +4,7 @@ from .. import core
 
 RULE = ('all digraphs with self-loops on 1..3 nodes exhaustively (quick) / on 4 nodes exhaustively (thorough; quick: seeded '
         'sample), each realised as a function-block instance graph and as a type graph (out-degree-1 nodes as alias or '
-        'structure, both), declarations in random order; plus random graphs up to 12 nodes, diamonds and chains of depth 200; '
+        'structure, both) and as a mixture of function blocks, structures and aliases referring to each other, declarations in random order, half of them with the letter case of every name occurrence chosen independently; plus random graphs up to 12 nodes, diamonds and chains of depth 200; '
         'graphs of out-degree <= 1 also as enumeration alias chains used by several variables (P0010 or P0013); '
         'analyze() on the text; oracle: P0010 in codes <=> the reference graph has a cycle (independent DFS), '
         'correspondence: the Lean model `rejectsRecursive`; non-trivial = at least one edge; distinct = distinct '
@@ -55,6 +55,40 @@ def realise_type(n, edges, rng, alias_pref):
             decls.append(f'  T{i} : STRUCT\n{es}  END_STRUCT;\n'); model.append(f'struct:{i}:' + ','.join(str(j) for j in outs))
     order = list(range(n)); rng.shuffle(order)
     return 'TYPE\n' + ''.join(decls[i] for i in order) + 'END_TYPE\n', [model[i] for i in order]
+
+
+def realise_mixed(n, edges, rng):
+    """every node at random a function block, a structure or (out-degree 1) an alias; a reference is a variable, an
+    element or the alias base whatever the kind of the target, so that cycles may lead through function blocks and
+    data types alike"""
+    kinds = []
+    for i in range(n):
+        outs = [b for a, b in edges if a == i]
+        kinds.append(rng.choice(['fb', 'struct', 'alias'] if len(outs) == 1 else ['fb', 'struct']))
+    name = lambda j: ('FB%d' if kinds[j] == 'fb' else 'T%d') % j
+    decls, model = [], []
+    for i in range(n):
+        outs = [b for a, b in edges if a == i]
+        if kinds[i] == 'fb':
+            vs = ''.join(f'    v{j}_{k} : {name(j)};\n' for k, j in enumerate(outs)) or '    x : BOOL;\n'
+            decls.append(f'FUNCTION_BLOCK FB{i}\n  VAR\n{vs}  END_VAR\nEND_FUNCTION_BLOCK\n')
+            model.append(f'fb:{i}:' + ','.join(str(j) for j in outs))
+        elif kinds[i] == 'alias':
+            decls.append(f'TYPE\n  T{i} : {name(outs[0])};\nEND_TYPE\n'); model.append(f'alias:{i}:{outs[0]}')
+        else:
+            es = ''.join(f'    e{k} : {name(j)};\n' for k, j in enumerate(outs)) or '    a : INT;\n'
+            decls.append(f'TYPE\n  T{i} : STRUCT\n{es}  END_STRUCT;\nEND_TYPE\n'); model.append(f'struct:{i}:' + ','.join(str(j) for j in outs))
+    order = list(range(n)); rng.shuffle(order)
+    return '\n'.join(decls[i] for i in order), [model[i] for i in order]
+
+
+def respell(text, rng):
+    """the letter case of every occurrence of a declared name, independently"""
+    import re
+    def f(m):
+        w = m.group(0)
+        return rng.choice([w, w.lower(), w.capitalize(), w[0].lower() + w[1:]])
+    return re.sub(r'\b(?:FB|T)\d+\b', f, text)
 
 
 def realise_enum(n, edges, rng):
@@ -127,6 +161,14 @@ def run(ctx):
             t, m = realise_type(n, edges, rng, pref)
             cases.append({'n': n, 'edges': edges, 'kind': kind, 'real': {True: 'type-alias', False: 'type-struct', 'mixed': 'type-mixed'}[pref], 'text': t, 'model': m})
     for n, edges, kind in graphs(ctx):
+        if kind == 'exhaustive' or (kind in ('sample4', 'random') and (not ctx.quick() or rng.random() < 0.25)) or (kind == 'exhaustive4' and rng.random() < 0.25):
+            t, m = realise_mixed(n, edges, rng)
+            cases.append({'n': n, 'edges': edges, 'kind': kind, 'real': 'fb-type-mixed', 'text': t, 'model': m})
+    # half of the realisations with the letter case of every name occurrence chosen independently
+    for c in cases:
+        if rng.random() < 0.5:
+            c['text'] = respell(c['text'], rng); c['respelled'] = True
+    for n, edges, kind in graphs(ctx):
         if n <= 8 and all(sum(1 for a, _ in edges if a == i) <= 1 for i in range(n)) and (kind != 'random' or n <= 8):
             cases.append({'n': n, 'edges': edges, 'kind': kind, 'real': 'enum-alias', 'text': realise_enum(n, edges, rng), 'model': None})
     for depth in (5, 30):
@@ -139,6 +181,7 @@ def run(ctx):
         ctx.count(f"{c['real']}:{c['kind']}")
         cyc = has_cycle(c['n'], c['edges'])
         ctx.count('cyclic' if cyc else 'acyclic')
+        if c.get('respelled'): ctx.count('names-respelled')
         show = {'n': c['n'], 'edges': c['edges'], 'realisation': c['real'], 'text': c['text'] if c['n'] <= 6 else c['text'][:300] + '…'}
         if c['edges']:
             ctx.feature((c['real'], c['n'], tuple(sorted(c['edges']))))
